@@ -8,7 +8,7 @@ def run_e2(rep, prop, budget_s=None):
     cfgs = e2cfgs.quick_set(prop) if rep.tier == 'quick' else e2cfgs.thorough_set(prop)
 
     if rep.only:
-        cfgs = [c for c in cfgs if rep.only in c['name']] if rep.only.startswith(('join', '1p', 'tee', 'listener', 'balance', 'e2')) else []
+        cfgs = [c for c in cfgs if rep.only in c['name']] if rep.only.startswith(('join', '1p', 'tee', 'listener', 'balance', 'e2', 'chain', 'rejoin')) else []
 
     out = {}
 
